@@ -250,7 +250,11 @@ class C10(Check):
             for src, _s, _e, _o, pt in pieces:
                 if "Haplotig" in pt:
                     continue
-                locs = [(k, sc_) for k, sc_, fs, fe in home.get(src, []) if _s <= fs and fe <= _e]
+                lo, hi = _s, _e
+                irow = dict(inp)[src][0]
+                if irow[4] == -1:  # single reverse-strand contig: scaffold position p is contig coordinate end - (p - 1)
+                    lo, hi = irow[3] - (_e - 1), irow[3] - (_s - 1)
+                locs = [(k, sc_) for k, sc_, fs, fe in home.get(src, []) if lo <= fs and fe <= hi]
                 if len(locs) != 1:
                     errs.append(("piece-not-exactly-once", f"{src}:{_s}-{_e}: {len(locs)}"))
                     continue
@@ -375,7 +379,28 @@ class C10(Check):
                             c = ("ctg_3", 1, 5, 1, ("Painted", "Unloc"))
                             scaffolds = (("Scaffold_1", (a, b, c)), ("Scaffold_2", (("ctg_2", 1, l2, 1, ("Painted",)),)))
                             self.run_case(inp, scaffolds, "SUPER_", ctx)
-            ctx.sample({"cut": "one scaffold cut into chromosome + Unloc"})
+            # a Haplotig cut out of a (forward or reverse strand) contig, ranked against whole haplotigs whose
+            # sizes lie on both sides of the cut piece's true length and of the uncut contig length
+            for strand in (1, -1):
+                for l1 in (40,):
+                    for cut in (8, 20, 32):
+                        for hap_first in (False, True):
+                            for h2 in (6, 14, 26, 36, 44):
+                                for h3 in (10, 30):
+                                    inp = (
+                                        ("ctg_1", (("F", "ctg_1", 1, l1, strand),)),
+                                        ("ctg_2", (("F", "ctg_2", 1, h2, 1),)),
+                                        ("ctg_3", (("F", "ctg_3", 1, h3, 1),)),
+                                        ("ctg_4", (("F", "ctg_4", 1, 50, 1),)),
+                                    )
+                                    a = ("ctg_1", 1, cut, 1, ("Painted", "Haplotig") if hap_first else ("Painted",))
+                                    b = ("ctg_1", cut + 1, l1, 1, ("Painted",) if hap_first else ("Painted", "Haplotig"))
+                                    scaffolds = (
+                                        ("Scaffold_1", (a, b, ("ctg_2", 1, h2, 1, ("Painted", "Haplotig")))),
+                                        ("Scaffold_2", (("ctg_4", 1, 50, 1, ("Painted",)), ("ctg_3", 1, h3, 1, ("Painted", "Haplotig")))),
+                                    )
+                                    self.run_case(inp, scaffolds, "SUPER_", ctx)
+            ctx.sample({"cut": "one scaffold cut into chromosome + Unloc / + Haplotig (both strands)"})
 
     def replay(self, case, ctx):
         inp, pvspec, prefix = case
